@@ -16,6 +16,7 @@ from pyiron_workflow import as_function_node
 CALL_LOG: list = []  # (index, a, b, c)
 FAIL: dict[int, set] = {}  # index -> set of attempt numbers (1-based) that raise; {0} = always
 ATTEMPTS: dict[int, int] = {}
+EPOCH = [0]  # run number of a re-run case: terms computed in run k > 0 are tagged f{i}@k (detects stale inputs)
 _LOCK = threading.Lock()
 N_TERM = 32
 
@@ -28,6 +29,7 @@ def reset():
     CALL_LOG.clear()
     FAIL.clear()
     ATTEMPTS.clear()
+    EPOCH[0] = 0
 
 
 def _record(i, a, b, c):
@@ -43,7 +45,7 @@ def _record(i, a, b, c):
 def _mk(i):
     def fn(a="d", b="d", c="d"):
         _record(i, a, b, c)
-        return (f"f{i}", a, b, c)
+        return (f"f{i}" if not EPOCH[0] else f"f{i}@{EPOCH[0]}", a, b, c)
 
     fn.__name__ = f"F{i}"
     fn.__qualname__ = f"F{i}"
